@@ -43,6 +43,13 @@ func Negate(lit *Term) *Term {
 	if lit.Op == "un" && lit.Name == "!" {
 		return lit.Args[0]
 	}
+	if lit.Op == "and" || lit.Op == "or" {
+		n := &Term{Op: map[string]string{"and": "or", "or": "and"}[lit.Op], V: lit.V}
+		for _, a := range lit.Args {
+			n.Args = append(n.Args, Negate(a))
+		}
+		return n
+	}
 	return &Term{Op: "un", Name: "!", Args: []*Term{lit}, V: lit.V}
 }
 
@@ -256,6 +263,34 @@ func IsCmp(lit *Term) (op string, l, r *Term, ok bool) {
 		return lit.Name, lit.Args[0], lit.Args[1], true
 	}
 	return "", nil, nil, false
+}
+
+// LitMatches reports whether passing an edge labelled lit establishes a fact
+// matching one of the patterns: a conjunction establishes each of its
+// conjuncts; a disjunction only what every disjunct establishes.
+func LitMatches(lit *Term, patterns ...string) bool {
+	if lit == nil {
+		return false
+	}
+	if _, ok := MatchAny(lit, patterns...); ok {
+		return true
+	}
+	switch lit.Op {
+	case "and":
+		for _, a := range lit.Args {
+			if LitMatches(a, patterns...) {
+				return true
+			}
+		}
+	case "or":
+		for _, a := range lit.Args {
+			if !LitMatches(a, patterns...) {
+				return false
+			}
+		}
+		return len(lit.Args) > 0
+	}
+	return false
 }
 
 var _ = token.NoPos
